@@ -186,8 +186,22 @@ std::string xprobe_poly(const PD& P, const PD& Q) {
     return os.str();
 }
 
+// Are the polynomial constants that const operations hand to the (in-place normalising) polynomial predicates stored normalised?
+// Poly1Dom::isZero/assign/degree/mod… strip leading zero coefficients of their `const Rep&` argument through a const_cast; on the
+// domain's own `zero`/`one`/`mOne` and on Extension's modulus `_irred` that store is never reached iff these are stored normalised
+// (translate/footprint.py lists such call sites in the column argNormalise; this probe is the checked side of that assumption).
+template <class V, class F> inline bool norm_rep(const V& v, const F& f) { return v.size() == 0 || !f.isZero(v[v.size() - 1]); }
+template <class D> inline bool norm_ok(const D&) { return true; }
+template <class B> inline bool norm_ok(const Givaro::Poly1Dom<B, Givaro::Dense>& P) {
+    return P.zero.size() == 0 && norm_rep(P.one, P.getdomain()) && P.one.size() == 1 && norm_rep(P.mOne, P.getdomain()) && P.mOne.size() == 1;
+}
+template <class B> inline bool norm_ok(const Givaro::Extension<B>& E) {
+    return norm_rep(E.irreducible(), E.base_field()) && norm_ok(E.polynomial_domain());
+}
+
 struct Box {
     virtual ~Box() {}
+    virtual bool normalised() const { return true; }        // see norm_ok
     virtual Box* copy() const = 0;              // copy-construct a new domain object from this one
     virtual void assign(const Box& o) = 0;      // operator=
     virtual void selfassign() = 0;              // x = x
@@ -206,6 +220,7 @@ struct BoxT : Box {
     void selfassign() override { D& alias = d; d = alias; }
     std::string probe() const override { return PROBE(d); }
     std::string xprobe(const Box& src) const override { return XPROBE(d, static_cast<const BoxT&>(src).d); }
+    bool normalised() const override { return norm_ok(d); }
 };
 
 template <class D> using RingBox = BoxT<D, probe_ring<D>, xprobe_ring<D>>;
@@ -237,6 +252,7 @@ struct PolyBox : Box {
     void selfassign() override { P_t& alias = d; d = alias; }
     std::string probe() const override { return probe_poly<P_t>(d); }
     std::string xprobe(const Box& src) const override { return xprobe_poly<P_t>(d, static_cast<const PolyBox&>(src).d); }
+    bool normalised() const override { return norm_ok(d); }
 };
 
 // ---- residue number systems: the accessors `product()`, `Reciprocals()`, `reciprocal(i)` are const (C18's anchors name their caches) ----
@@ -333,6 +349,7 @@ struct FactorBox : Box {
     Box* copy() const override { return new FactorBox(*this); }
     void assign(const Box& o) override { d = static_cast<const FactorBox&>(o).d; }
     void selfassign() override { P_t& alias = d; d = alias; }
+    bool normalised() const override { return norm_ok(static_cast<const Poly1Dom<F_t, Dense>&>(d)); }
     static void fill(const P_t& P, P_t::Element& A, int k) {
         const F_t& F = P.getdomain(); F_t::Element e;
         P.init(A, Degree(3));
